@@ -174,19 +174,36 @@ func raceSignatures(text string) []Violation {
 			fr := "outside-library"
 			viaCopy := false
 			first := true
-			for _, l := range sec[1:] {
+			for li, l := range sec[1:] {
 				tl := strings.TrimSpace(l)
 				if first && tl != "" && !strings.Contains(tl, ".go:") {
 					// the function that performs the access (skipping runtime helpers)
 					if !strings.HasPrefix(tl, "runtime.") && !strings.HasPrefix(tl, "internal/") {
 						first = false
-						if strings.HasPrefix(tl, "simharness.") || strings.Contains(tl, "/simrt.") {
+						// where its code is decides whose access it is: a closure the library returned to the
+						// harness is named after the harness function it was inlined into, its file is the library's
+						file := ""
+						if li+2 < len(sec) {
+							file = strings.TrimSpace(sec[li+2])
+						}
+						inLibFile := strings.HasPrefix(file, "github.com/hashicorp/eventlogger") && !strings.Contains(file, "/simrt/")
+						if (strings.HasPrefix(tl, "simharness.") || strings.Contains(tl, "/simrt.")) && !inLibFile {
 							harnessAccess++
 						}
 					}
 				}
 				if strings.HasPrefix(tl, "github.com/mitchellh/copystructure.Copy(") {
 					viaCopy = true
+				}
+				if strings.HasPrefix(tl, "github.com/hashicorp/eventlogger") && !strings.Contains(tl, "/simrt") && strings.Contains(tl, ".go:") {
+					// a file line met before any library function line: library code inlined into a harness function
+					// (a closure the library returned): named by its place
+					f := strings.Fields(tl)[0]
+					if i := strings.Index(f, "/"); i >= 0 {
+						f = f[i:]
+					}
+					fr = " closure@" + strings.TrimPrefix(f, "/")
+					break
 				}
 				if strings.HasPrefix(tl, "github.com/hashicorp/eventlogger") && !strings.Contains(tl, "/simrt.") {
 					if i := strings.LastIndex(tl, "("); i > 0 {
